@@ -113,7 +113,7 @@ func TestVerifC11Server(t *testing.T) {
 	builds := []ref.Build{ok, {"example.com/p9", "v1.0.0", "go1.21.0", "linux", "amd64"}, {"example.com/p1", "v9.0.0", "go1.21.0", "linux", "amd64"}, {"example.com/p1", "v1.0.0", "go1.99.0", "linux", "amd64"},
 		{"example.com/p1", "v1.0.0", "go1.21.0", "plan9", "amd64"}, {"example.com/p1", "v1.0.0", "go1.21.0", "linux", "riscv64"}, {"example.com/p1", "v1.1.0", "go1.21.0", "linux", "amd64"}, {"cmd/go", "go1.21.0", "go1.21.0", "linux", "amd64"},
 		{"example.com/p1", "v1.0.0", "go1.22.0", "darwin", "arm64"}, {"", "", "", "", ""}}
-	names := []string{"c", "c:a", "c:b", "d:a", "d:b", "d:c", "d", "d:{a,b}", "zz", "s", "s\nmain.f:+1", "t\nmain.f:+1", "c\nmain.f:+1", "s\n", "\nmain.f"}
+	names := []string{"c", "c:a", "c:b", "d:a", "d:b", "d:c", "d", "d:{a,b}", "zz", "e", "f:x", "f:z", "t\nmain.f:+1", "s", "s\nmain.f:+1", "t\nmain.f:+1", "c\nmain.f:+1", "s\n", "\nmain.f"}
 	for _, k := range keys {
 		cfg := cfgSeen[k]
 		srv := serverFor(cfg)
@@ -142,13 +142,27 @@ func TestVerifC11Server(t *testing.T) {
 					}
 					rep := telemetry.Report{Week: "2024-01-07", Config: "v1.2.3", X: 0.5, Programs: []*telemetry.ProgramReport{pr}}
 					if withBase {
-						if !ref.BuildApproved(cfg, ok, true) {
+						// An accepted program report carrying the same item name (when it is approved
+						// for that program) precedes the item: approval must not carry over.
+						bb := ok
+						if b.Program == ok.Program {
+							bb = ref.Build{"cmd/go", "go1.21.0", "go1.21.0", "linux", "amd64"}
+						}
+						if !ref.BuildApproved(cfg, bb, true) {
 							continue
 						}
-						if _, l := ref.CounterListed(cfg, ok.Program, "c"); !l {
-							continue
+						base := &telemetry.ProgramReport{Program: bb.Program, Version: bb.Version, GoVersion: bb.GoVersion, GOOS: bb.GOOS, GOARCH: bb.GOARCH, Counters: map[string]int64{}, Stacks: map[string]int64{}}
+						if ni >= 0 {
+							n := names[ni]
+							if strings.Contains(n, "\n") {
+								if _, l := ref.StackListed(cfg, bb.Program, n); l {
+									base.Stacks[n] = 1
+								}
+							} else if _, l := ref.CounterListed(cfg, bb.Program, n); l {
+								base.Counters[n] = 1
+							}
 						}
-						rep.Programs = append([]*telemetry.ProgramReport{{Program: ok.Program, Version: ok.Version, GoVersion: ok.GoVersion, GOOS: ok.GOOS, GOARCH: ok.GOARCH, Counters: map[string]int64{"c": 1}, Stacks: map[string]int64{}}}, rep.Programs...)
+						rep.Programs = append([]*telemetry.ProgramReport{base}, rep.Programs...)
 					}
 					body, _ := json.Marshal(rep)
 					status, pan := srv.do("POST", "/upload/x", body)
